@@ -1040,3 +1040,116 @@ theorem c04_src_recarray (s : PMM V) (hw : C04.PMMWF s) (g : List V)
 
 example : (C04.Examples.m3.srcModelIdxs (some [1])) = [1] ∧
     (1 ∈ C04.Examples.m3.srcModelIdxs (some [1, 7])) := by decide
+
+/-! ### the alias matrix after `map_param`, the value dictionaries -/
+
+/-- the local name model `i` gets from the `model_param_names` argument (a single name is broadcast) -/
+def C04.aliasOf (names : List String) (i : Nat) : Option String :=
+  match names with
+  | [a] => some a
+  | _ => names[i]?
+
+theorem C04.mapParam_ok (s : PMM V) (p : Param V) (models : Option (List Nat)) (al : AliasArg)
+    (h : (s.mapParam p models al).2 = .ok ()) :
+    ∃ col gps', PMM.aliasColumn (s.aliasNames p al) (s.modelMask models) = .ok col ∧
+      s.gps.addParam p false = .ok gps' ∧
+      (s.mapParam p models al).1 =
+        { s with gps := gps', mpn := List.zipWith (fun row c => row ++ [c]) s.mpn col } := by
+  unfold PMM.mapParam at h ⊢
+  by_cases h0 : s.modelsEmpty models = true
+  · rw [if_pos h0] at h; cases h
+  · rw [if_neg h0] at h ⊢
+    unfold PMM.mapParamCore at h ⊢
+    cases h1 : PMM.checkAliases (s.aliasNames p al) s.mpn (s.modelMask models) 0 with
+    | error e => rw [h1] at h; cases h
+    | ok u =>
+      cases h2 : PMM.aliasColumn (s.aliasNames p al) (s.modelMask models) with
+      | error e => rw [h1, h2] at h; cases h
+      | ok col =>
+        cases h3 : s.gps.addParam p false with
+        | error e => rw [h1, h2, h3] at h; cases h
+        | ok gps' => exact ⟨col, gps', rfl, rfl, rfl⟩
+
+/-- **`map_param`, accepted**: the parameter is appended to the global set, the models stay, and every
+alias row gets exactly one new entry — the requested local name when the model is one of the models
+the parameter is mapped to, "not mapped" otherwise. -/
+theorem c04_map_result (s : PMM V) (hw : C04.PMMWF s) (p : Param V) (hp : ParamWF p)
+    (models : Option (List Nat)) (al : AliasArg) (h : (s.mapParam p models al).2 = .ok ()) :
+    (s.mapParam p models al).1.gps.params = s.gps.params ++ [p] ∧
+    (s.mapParam p models al).1.models = s.models ∧
+    ∀ i row, s.mpn[i]? = some row → (s.mapParam p models al).1.mpn[i]? =
+      some (row ++ [if PMM.isMapped models i then C04.aliasOf (s.aliasNames p al) i else none]) := by
+  obtain ⟨col, gps', h2, h3, heq⟩ := C04.mapParam_ok s p models al h
+  rw [heq]
+  refine ⟨by simpa using (addParam_coherent hw.gps hp h3).2, rfl, ?_⟩
+  intro i row hrow
+  have hi : i < s.nModels := by
+    have := (List.getElem?_eq_some_iff.1 hrow).1
+    rw [hw.rows] at this
+    exact this
+  have hmask : (s.modelMask models)[i]? = some (PMM.isMapped models i) := by
+    unfold PMM.modelMask
+    rw [List.getElem?_map, List.getElem?_range hi]
+    rfl
+  have hml : (s.modelMask models).length = s.nModels := by simp [PMM.modelMask]
+  have hcol : col[i]? = some (if PMM.isMapped models i then C04.aliasOf (s.aliasNames p al) i else none) := by
+    unfold PMM.aliasColumn at h2
+    by_cases hl : (s.aliasNames p al).length = (s.modelMask models).length
+    · rw [if_pos hl] at h2
+      have hc : col = List.zipWith (fun (b : Bool) a => if b then some a else none) (s.modelMask models)
+          (s.aliasNames p al) := (Except.ok.inj h2).symm
+      have hin : i < (s.aliasNames p al).length := by rw [hl, hml]; exact hi
+      have ha : C04.aliasOf (s.aliasNames p al) i = some (s.aliasNames p al)[i] := by
+        unfold C04.aliasOf
+        split
+        · rename_i a hn
+          have hi0 : i = 0 := by
+            have : i < 1 := by simpa [hn] using hin
+            omega
+          subst hi0
+          simp [hn]
+        · exact List.getElem?_eq_getElem hin
+      rw [hc, List.getElem?_zipWith, hmask, List.getElem?_eq_getElem hin, ha]
+      simp
+    · rw [if_neg hl] at h2
+      split at h2
+      · rename_i a hn
+        have hc : col = (s.modelMask models).map (fun (b : Bool) => if b then some a else none) :=
+          (Except.ok.inj h2).symm
+        rw [hc, List.getElem?_map, hmask]
+        simp [C04.aliasOf, hn]
+      · cases h2
+  show (List.zipWith (fun row c => row ++ [c]) s.mpn col)[i]? = _
+  rw [List.getElem?_zipWith, hrow, hcol]
+  rfl
+
+example : ((C04.Examples.m3.mapParam C04.Examples.b (some [0, 2]) (.one "x")).1.mpn) =
+    [[none, some "x"], [some "gamma", none], [some "gamma", some "x"]] := by decide
+
+/-- the value dictionary has exactly one entry per parameter when the supplied vector has one value
+per floating parameter (a shorter vector is truncated by `zip` — the hypothesis is needed) -/
+theorem c04_params_dict_total (s : PSet V) (hs : Coherent s) (q : List String) (g : List V)
+    (hg : g.length = s.floatNames.length) :
+    (s.views q g).paramsDict.map (·.1) = s.floatNames ++ s.fixedNames ∧
+    (s.views q g).paramsDict.length = s.params.length ∧
+    (s.views q g).floatDict.map (·.2) = g := by
+  have hfv : s.fixedVals.length = s.fixedNames.length := by
+    rw [hs.caches.fixedVals, hs.caches.fixedNames, List.length_map, List.length_map]
+  have h1 : (s.views q g).paramsDict.map (·.1) = s.floatNames ++ s.fixedNames := by
+    simp only [PSet.views, List.map_append]
+    rw [List.map_fst_zip (by omega), List.map_fst_zip (by omega)]
+  refine ⟨h1, ?_, ?_⟩
+  · have := congrArg List.length h1
+    rw [List.length_map] at this
+    rw [this, List.length_append, hs.caches.floatNames, hs.caches.fixedNames, List.length_map, List.length_map]
+    have hp := List.length_eq_length_filter_add (fun p : Param V => p.isfixed) (l := s.params)
+    simp only [Bool.not_eq_true] at hp
+    have hfl : (s.params.filter (fun p => !p.isfixed)).length =
+        (s.params.filter (fun p => p.isfixed = false)).length := by
+      congr 1
+      apply List.filter_congr
+      intro p _
+      cases p.isfixed <;> rfl
+    omega
+  · simp only [PSet.views]
+    rw [List.map_snd_zip (by omega)]
